@@ -9,7 +9,8 @@ EXTENDS Tensor, Json
 CONSTANTS Ops,        \* subset of {"tensordot", "dot", "inner", "outer", "vdot", "matmul", "einsum"}
           Shapes,     \* operand shapes of tensordot / dot / inner / outer / vdot (all ordered pairs)
           MMShapes,   \* operand shapes of matmul (all ordered pairs)
-          Swapped     \* TRUE: the einsum menu is enumerated a second time with extents 2 and 3 exchanged
+          Swapped,    \* TRUE: the einsum menu is enumerated a second time with extents 2 and 3 exchanged
+          DShapes     \* matrix shapes of the decompositions (ops "qr", "tsqr", "sfqr", "svd")
 
 VARIABLES cs, out
 vars == <<cs, out>>
@@ -96,8 +97,18 @@ SwapExt(v) == IF v = 2 THEN 3 ELSE IF v = 3 THEN 2 ELSE v
 SwapCase(c) == [c EXCEPT !.shapes = [k \in DOMAIN c.shapes |-> [d \in DOMAIN c.shapes[k] |-> SwapExt(c.shapes[k][d])]]]
 EinsumCases == EinsumMenu \cup (IF Swapped THEN { SwapCase(c) : c \in EinsumMenu } ELSE {})
 
+\* decompositions: the chunking is part of the case (it decides whether the function is defined).  The long axis
+\* is cut in every way, the short axis is one block or split once (squares: both axes in every way)
+OneOrSplit(n) == {<<n>>} \cup (IF n >= 2 THEN {<<1, n - 1>>, <<n - 1, 1>>} ELSE {})
+DChunkings(sh) ==
+  IF sh[1] > sh[2] THEN { <<rc, cc>> : rc \in Comps(sh[1]), cc \in OneOrSplit(sh[2]) }
+  ELSE IF sh[1] < sh[2] THEN { <<rc, cc>> : rc \in OneOrSplit(sh[1]), cc \in Comps(sh[2]) }
+  ELSE { <<rc, cc>> : rc \in Comps(sh[1]), cc \in Comps(sh[2]) }
+DecompCases(op) == UNION { { [op |-> op, shapes |-> <<sh>>, dch |-> ch] : ch \in DChunkings(sh) } : sh \in DShapes }
+
 OpCases(op) ==
-  CASE op = "tensordot" -> UNION { TDCases(sa, sb) : sa \in Shapes, sb \in Shapes }
+  CASE op \in DecompOps  -> {}
+    [] op = "tensordot" -> UNION { TDCases(sa, sb) : sa \in Shapes, sb \in Shapes }
     [] op = "matmul"    -> MMCases
     [] op = "einsum"    -> EinsumCases
     [] OTHER            -> PairCases(op)
@@ -110,10 +121,13 @@ ZeroChunkings(sh) ==
 
 Init == /\ out = ""
         /\ \/ \E op \in Ops : cs \in OpCases(op)
+           \/ \E op \in Ops \cap DecompOps : cs \in DecompCases(op)
            \/ \E sh \in AllShapes : cs = [op |-> "chunkings", shape |-> sh]
 
 Expect == IF cs.op = "chunkings"
           THEN [all |-> SetToSeq(NDChunkings(cs.shape)), zero |-> SetToSeq(ZeroChunkings(cs.shape))]
+          ELSE IF cs.op \in DecompOps
+          THEN [dom |-> InDomain(cs.op, cs.shapes[1], cs.dch), fshapes |-> FactorShapes(cs.op, cs.shapes[1])]
           ELSE Res(cs)
 
 Next == /\ out = ""
@@ -154,7 +168,17 @@ OuterIsEinsum ==
                                      << Arr(<<Size(A1.shape)>>, A1.cells), Arr(<<Size(B1.shape)>>, B1.cells) >>)
 \* every result cell is a non-negative sum of products of positive ids; it is positive unless nothing is summed
 CellsSane ==
-  (cs.op # "chunkings" /\ ~Res(cs).err) =>
+  (cs.op \notin DecompOps \cup {"chunkings"} /\ ~Res(cs).err) =>
      /\ Len(Res(cs).cells) = Size(Res(cs).shape)
      /\ \A j \in DOMAIN Res(cs).cells : Res(cs).cells[j] >= 0
+\* decompositions: the factor shapes chain (m, k)(k, n) with k = min(m, n); qr is defined exactly where tsqr or sfqr
+\* is; a tall matrix in one column of blocks is in the domain of qr, tsqr and svd whatever its row chunking
+DecompSane ==
+  cs.op \in DecompOps =>
+    LET sh == cs.shapes[1]
+        fs == FactorShapes(cs.op, sh)
+    IN /\ fs[1][1] = sh[1] /\ fs[Len(fs)][2] = sh[2] /\ fs[1][2] = fs[Len(fs)][1] /\ fs[1][2] \in {sh[1], sh[2]}
+       /\ fs[1][2] <= sh[1] /\ fs[1][2] <= sh[2]
+       /\ (cs.op = "qr" /\ InDomain("qr", sh, cs.dch)) => (InDomain("tsqr", sh, cs.dch) \/ InDomain("sfqr", sh, cs.dch))
+       /\ (sh[1] >= sh[2] /\ Len(cs.dch[2]) = 1 /\ cs.op # "sfqr") => InDomain(cs.op, sh, cs.dch)
 =============================================================================
